@@ -177,7 +177,19 @@ def do_read(X, sparse: bool, ev: dict):
         if f == "list":
             return X[np.array(a["idx"], dtype=int)]
         if f == "slice":
-            return X[slice(a["idx"][0], a["idx"][-1] + 1)]
+            import bind
+            n = int(np.prod(X.shape))
+            lo, hi = a["idx"][0], a["idx"][-1]
+            if lo > hi:                       # descending positions: the slice with step -1
+                return X[slice(None, None, -1)] if (lo == n - 1 and hi == 0) else X[slice(lo, (hi - 1) if hi > 0 else None, -1)]
+            # the same positions as a slice with bounds counted from the end / running past the end (clipped):
+            # presentations rotated with the array layout
+            lay = bind.get_layout()
+            if lay == "swapped":
+                return X[slice(lo - n, None if hi == n - 1 else hi + 1 - n)]
+            if lay == "strided" and hi == n - 1:
+                return X[slice(lo, n + 5)]
+            return X[slice(lo, hi + 1)]
         return X[int(a["idx"][0])]
     if op == "get_region":
         return X[present_key(pykey(a["key"]), X.shape)]
